@@ -10,6 +10,7 @@
 (*                                                                         *)
 (* Abstract tokens (strings; the surface lexeme wherever possible):        *)
 (*   "x"                 an operand (name test a..e, or variable $a..$e)   *)
+(*   "u?"                an operand: unary lookup ?key / ?1 / ?* / ?(e) (3.1, a PrimaryExpr) *)
 (*   "(" ")"             parenthesised expression                          *)
 (*   "f("  ")"           static function call with one argument            *)
 (*   "["  "]"            predicate (postfix, with an inner expression)     *)
@@ -84,7 +85,8 @@ GOpens  == {"(", "f("}                                    \* primaries with an i
 Opens   == POpens \cup GOpens \cup KwOps \cup {"then"}
 Closes  == {")", "]", "else", "return", "satisfies"}
 Operators == BinOps \cup PreOps \cup PostOps \cup POpens \cup KwOps
-AllTokens == Operators \cup Opens \cup Closes \cup {"x"}
+Operands  == {"x", "u?"}
+AllTokens == Operators \cup Opens \cup Closes \cup Operands
 
 CloseOf(o) == CASE o = "[" -> "]"
                 [] o = "then" -> "else"
@@ -108,7 +110,7 @@ V20 == V10 \cup ValueComp \cup NodeComp \cup
        {",", "to", "idiv", "union", "intersect", "except", "pos"} \cup TypeOps \cup
        {"if(", "then", "for", "some", "every"}
 V30 == V20 \cup {"||", "!", "c(", "let"}
-V31 == V30 \cup {"=>", "?"}
+V31 == V30 \cup {"=>", "?", "u?"}
 
 InVersionOps(v) == IF v = "1.0" THEN {} ELSE TypeOpsPlain
 InVersion(v) == CASE v = "1.0" -> V10 [] v = "2.0" -> V20 [] v = "3.0" -> V30 [] OTHER -> V31
@@ -154,7 +156,7 @@ Assoc(v, s) ==
 (* (a name, or '$' + name); "?" is rendered "?k", "=>" as "=> f()".         *)
 Words == {"or", "and", "to", "div", "idiv", "mod", "union", "intersect", "except", "is", "then", "else",
           "return", "satisfies", "for", "some", "every"} \cup ValueComp \cup TypeOps
-WordEnd(s)   == s \in (Words \ TypeOpsOcc) \cup {"x", "?"}                            \* "for $v in", "some $v in" end with a word
+WordEnd(s)   == s \in (Words \ TypeOpsOcc) \cup {"x", "?", "u?"}                            \* "for $v in", "some $v in" end with a word
 WordStart(s) == s \in Words \cup {"x", "neg", "-", "f(", "if(", "let"}
 (* "/" directly followed by a leading "/" would fuse into the token "//" *)
 Fuses(a, b)  == a \in PathOps \cup RootOps /\ b \in RootOps
@@ -229,7 +231,8 @@ IsErr(s) == Len(s) >= 4 /\ SubSeq(s, 1, 4) = "ERR:"
 
 (* the i-th token is the n-th token of its family *)
 Ord(t, i, S)   == ToString(Cardinality({k \in 1..i : t[k] \in S}))
-Leaf(t, i)     == "(x" \o Ord(t, i, {"x"}) \o ")"
+Leaf(t, i)     == IF t[i] = "u?" THEN "(? (K" \o Ord(t, i, {"?", "u?"}) \o "))"      \* [76] UnaryLookup ::= "?" KeySpecifier
+                  ELSE "(x" \o Ord(t, i, {"x"}) \o ")"
 Sym(s)         == CASE s = "neg" -> "-" [] s = "pos" -> "+" [] s = "root/" -> "/" [] s = "root//" -> "//" [] OTHER -> s
 KwSym(s)       == IF s = "if(" THEN "if" ELSE s
 Node1(s, a)    == IF IsErr(a) THEN a ELSE "(" \o Sym(s) \o " " \o a \o ")"
@@ -238,7 +241,7 @@ PostNode(t, k, a) ==
   IF IsErr(a) THEN a
   ELSE CASE t[k] \in TypeOps -> "(" \o BaseOp(t[k]) \o " " \o a \o " (T" \o Ord(t, k, TypeOps) \o "))"
          [] t[k] = "=>"      -> "(=> " \o a \o " (F" \o Ord(t, k, {"=>"}) \o ") ())"
-         [] t[k] = "?"       -> "(? " \o a \o " (K" \o Ord(t, k, {"?"}) \o "))"
+         [] t[k] = "?"       -> "(? " \o a \o " (K" \o Ord(t, k, {"?", "u?"}) \o "))"
 CallNode(a, b) == IF IsErr(a) THEN a ELSE IF IsErr(b) THEN b ELSE "(" \o a \o " " \o b \o ")"   \* dynamic call: no symbol
 FuncNode(t, k, a) == IF IsErr(a) THEN a ELSE "(f" \o Ord(t, k, {"f("}) \o " " \o a \o ")"
 
@@ -266,7 +269,7 @@ G(v, t, d, i, j) ==
   LET ops == {k \in i..j : d[k] = d[i] /\ t[k] \in Operators}
   IN
   IF ops = {} THEN
-       IF i = j /\ t[i] = "x" THEN Leaf(t, i)
+       IF i = j /\ t[i] \in Operands THEN Leaf(t, i)
        ELSE IF t[i] \in GOpens /\ Match(t, d, i) = j
             THEN IF t[i] = "(" THEN G(v, t, d, i + 1, j - 1) ELSE FuncNode(t, i, G(v, t, d, i + 1, j - 1))
             ELSE "ERR:adjacent-operands"
@@ -340,6 +343,7 @@ GenInit == [t |-> <<>>, m |-> "pre", st |-> <<>>, n |-> 0, g |-> 0]
 GenExt(s, A, maxOps, maxGroups, bare) ==
   IF s.m \in {"pre", "step"} THEN
        {[s EXCEPT !.t = Append(@, "x"), !.m = "post"]}
+       \cup (IF "u?" \in A /\ s.m = "pre" THEN {[s EXCEPT !.t = Append(@, "u?"), !.m = "post"]} ELSE {})
        \cup (IF s.n < maxOps /\ s.m = "pre"
              THEN {[s EXCEPT !.t = Append(@, p), !.n = @ + 1, !.m = IF p \in RootOps THEN "step" ELSE "pre"] :
                       p \in {q \in A \cap PreOps : ~(q \in {"neg", "pos"} /\ AfterOccurrence(s.t))}}
@@ -352,7 +356,9 @@ GenExt(s, A, maxOps, maxGroups, bare) ==
              ELSE {})
   ELSE
        (IF s.n < maxOps
-        THEN {[s EXCEPT !.t = Append(@, b), !.n = @ + 1, !.m = "pre"] : b \in A \cap BinOps}
+        THEN {[s EXCEPT !.t = Append(@, b), !.n = @ + 1, !.m = "pre"] :
+                 b \in {c \in A \cap BinOps : ~(c = "," /\ s.st # <<>> /\ s.st[Len(s.st)][1] \in {"f(", "c("})}}
+             \* (a ',' directly inside a call separates arguments: it is not the comma operator)
              \cup {[s EXCEPT !.t = Append(@, q), !.n = @ + 1] : q \in A \cap PostOps}
              \cup {[s EXCEPT !.t = Append(@, o), !.n = @ + 1, !.m = "pre", !.st = Append(@, <<o, s.n + 1>>)] : o \in A \cap POpens}
         ELSE {})
